@@ -144,6 +144,15 @@ Example C17_nonvacuous :
    prop_C17 demo_U demo_KS demo (removelast os ++ [nth 6 os obs_empty]) = false).
 Proof. exact demo_nonvacuous. Qed.
 
+(* a repeated AddEdge that gives the existing edge a new ordinal is rejected although every answer
+   is the same as a set *)
+Example C17_reinsert_keeps_ordinal :
+  prop_C17 demo_U demo_KS reins (observe_run sched_id demo_U demo_KS empty reins) = true /\
+  prop_C17 demo_U demo_KS reins reins_bad = false /\
+  obs_equiv demo_U demo_KS (nth 0 reins_bad obs_empty) (nth 1 reins_bad obs_empty) = true /\
+  map (fun r => map ed_ord (snd r)) (o_edges (nth 1 reins_bad obs_empty)) = [[1]; [1]].
+Proof. exact reinsert_keeps_ordinal. Qed.
+
 Example C17_fixed_remove_edge_example :
   let s := remove_edge f2_pre kA kB (Some ETy) in
   q_edges s 0 = [f2_edge] /\ dedup edesc_eqb (q_edges s 1) = [f2_edge] /\ q_parents s 1 = [0].
@@ -235,6 +244,7 @@ Print Assumptions C17_legacy_remove_edge_refuted.
 Print Assumptions C17_legacy_stale_version_refuted.
 Print Assumptions C17_legacy_stale_adjacency_refuted.
 Print Assumptions C17_nonvacuous.
+Print Assumptions C17_reinsert_keeps_ordinal.
 Print Assumptions C17_fixed_remove_edge_example.
 Print Assumptions C17_query_children_filtered.
 Print Assumptions C17_query_parents_filtered.
